@@ -17,8 +17,10 @@ the property and `drv_c02 contract` decides each contract on the observed (input
 IEEE-754 / x87 decoding (`Ieee.decode` below, used only there and by the satisfiability witness).
 
 Intel SDM references: vol. 1 §4.8 (formats), §8.1.5 (x87 control word: RC = bits 11:10, 11b = toward zero),
-vol. 2 CVTSI2SD/CVTSI2SS, CVTTSD2SI/CVTTSS2SI ("integer indefinite"), CVTSS2SD, UCOMISD/UCOMISS and FCOMI/FUCOMI
-(ZF,PF,CF = 111 unordered, 000 greater, 001 less, 100 equal), FILD, FIST/FISTP, FLD, FST/FSTP, FCHS.
+vol. 2 CVTSI2SD/CVTSI2SS, CVTTSD2SI/CVTTSS2SI ("integer indefinite"), CVTSS2SD, UCOMISD/UCOMISS, COMISD/COMISS and
+FCOMI/FUCOMI (ZF,PF,CF = 111 unordered, 000 greater, 001 less, 100 equal), FILD, FIST/FISTP, FLD, FST/FSTP, FCHS,
+ADDSS/ADDSD/SUBSS/SUBSD and FADD/FSUB (IEEE-754 results: exact whenever the exact result is representable in the
+destination precision; x87: in the precision selected by the PC field), vol. 1 §8.1.5.2 (precision control).
 -/
 namespace ChibiVerif.Spec.Fpu
 
@@ -124,6 +126,10 @@ def truncTo (n : Nat) (v : Val) : BitVec n :=
 /-- x87 rounding control field of a control word -/
 def rc (cw : BitVec 16) : BitVec 2 := cw.extractLsb' 10 2
 
+/-- x87 precision control field of a control word (SDM vol. 1 §8.1.5.2): 11b = double extended precision (64-bit
+    significand), the value the psABI prescribes at process start (0x37f) and across calls -/
+def pc (cw : BitVec 16) : BitVec 2 := cw.extractLsb' 8 2
+
 /-- (ZF, PF, CF) after `ucomiss/ucomisd/fcomip/fucomip` (SDM) -/
 def Rel.flags : Rel → Bool × Bool × Bool
   | .un => (true, true, true)
@@ -187,6 +193,9 @@ structure FpuSpec where
   ucomiss : BitVec 32 → BitVec 32 → Rel
   ucomisd : BitVec 64 → BitVec 64 → Rel
   fcomi : BitVec 80 → BitVec 80 → Rel
+  /-- `comiss`/`comisd`: the same flag results as `ucomis*` (they differ only in signalling #IA for quiet NaNs) -/
+  comiss : BitVec 32 → BitVec 32 → Rel
+  comisd : BitVec 64 → BitVec 64 → Rel
   /- ### contracts -/
   /-- the all-zero pattern is +0 in both SSE formats (`xorps %xmm1, %xmm1`), `fldz` pushes +0 -/
   val32_zero : val32 0#32 = .fin false 0 0
@@ -224,8 +233,40 @@ structure FpuSpec where
   cvtss2sd_exact : ∀ x, Val.same (val64 (cvtss2sd x)) (val32 x) = true
   fld32_exact : ∀ x, Val.same (val80 (fld32 x)) (val32 x) = true
   fld64_exact : ∀ x, Val.same (val80 (fld64 x)) (val64 x) = true
+  /-- … and storing the widened datum back in its own format returns it (the value is representable: no rounding under
+      any control word; a signalling NaN would be quieted by the load, hence the restriction) -/
+  fst32_fld32 : ∀ cw x, (val32 x).isNaN = false → fst32 cw (fld32 x) = x
+  fst64_fld64 : ∀ cw x, (val64 x).isNaN = false → fst64 cw (fld64 x) = x
   /-- `fchs` complements the sign bit and nothing else -/
   fchs_spec : ∀ x, fchs x = x ^^^ (1#80 <<< 79)
+  /- ### contracts used by the cells that handle unsigned long at ≥ 2^63 (codegen.c u64f32, u64f64, u64f80, f32u64, f64u64, f80u64) -/
+  comiss_spec : ∀ a b, comiss a b = Val.cmp (val32 a) (val32 b)
+  comisd_spec : ∀ a b, comisd a b = Val.cmp (val64 a) (val64 b)
+  /-- the constants those cells materialise denote 2^63: binary32 0x5f000000 = 2^23·2^40, binary64 0x43e0000000000000 =
+      2^52·2^11, and `flds` of the former pushes the extended value 2^63·2^0 -/
+  val32_two63 : val32 0x5f000000#32 = .fin false 8388608 40
+  val64_two63 : val64 0x43e0000000000000#64 = .fin false 4503599627370496 11
+  val80_two63 : val80 (fld32 0x5f000000#32) = .fin false 9223372036854775808 0
+  /-- subtraction is exact when the result is representable; here (Sterbenz): x − 2^63 for 2^63 ≤ x < 2^64.  The x87 form
+      needs precision control = double extended (with a 24- or 53-bit significand the difference would be rounded). -/
+  subss_two63 : ∀ a (t : Int), (val32 a).trunc? = some t → 9223372036854775808 ≤ t → t < 18446744073709551616 →
+      (val32 (subss a 0x5f000000#32)).trunc? = some (t - 9223372036854775808)
+  subsd_two63 : ∀ a (t : Int), (val64 a).trunc? = some t → 9223372036854775808 ≤ t → t < 18446744073709551616 →
+      (val64 (subsd a 0x43e0000000000000#64)).trunc? = some (t - 9223372036854775808)
+  fsub_two63 : ∀ cw a (t : Int), pc cw = 3#2 → (val80 a).trunc? = some t → 9223372036854775808 ≤ t → t < 18446744073709551616 →
+      (val80 (fsub cw a (fld32 0x5f000000#32))).trunc? = some (t - 9223372036854775808)
+  /-- `fildq` of a pattern with the top bit set pushed v − 2^64; adding the constant 2^64 (`fadds` of the binary32
+      0x5f800000) in double extended precision is exact and yields the datum of v -/
+  fadd_two64 : ∀ cw (v : Int), pc cw = 3#2 → 9223372036854775808 ≤ v → v < 18446744073709551616 →
+      fadd cw (ofInt80 (v - 18446744073709551616)) (fld32 0x5f800000#32) = ofInt80 v
+  /-- adding a datum to itself is exact (no overflow here): float(k) + float(k) is the datum of 2·round(k) -/
+  addss_double : ∀ k : Int, k.natAbs < 2 ^ 63 → addss (ofInt32 k) (ofInt32 k) = ofInt32 (2 * roundInt 24 k)
+  addsd_double : ∀ k : Int, k.natAbs < 2 ^ 63 → addsd (ofInt64 k) (ofInt64 k) = ofInt64 (2 * roundInt 53 k)
+  /-- the datum nearest to an integer is determined by the integer's sign and rounded value -/
+  ofInt32_congr : ∀ a b : Int, a.natAbs ≤ 2 ^ 64 → b.natAbs ≤ 2 ^ 64 → (a < 0 ↔ b < 0) → roundInt 24 a = roundInt 24 b →
+      ofInt32 a = ofInt32 b
+  ofInt64_congr : ∀ a b : Int, a.natAbs ≤ 2 ^ 64 → b.natAbs ≤ 2 ^ 64 → (a < 0 ↔ b < 0) → roundInt 53 a = roundInt 53 b →
+      ofInt64 a = ofInt64 b
 
 /-! ### pure facts about `Val` used by the theorems -/
 
@@ -289,7 +330,8 @@ theorem Val.cmp_zero_left_eq (v : Val) (n : Bool) (e : Int) : (Val.cmp (.fin n 0
 /-! ### IEEE-754 / x87 decoding of bit patterns (SDM vol. 1 §4.8)
 
 Used by `drv_c02 contract` to decide the contracts on (input, output) pairs observed on the host CPU, i.e. as the
-intended reading of `val32/val64/val80`.  No theorem of Props/C02.lean depends on it. -/
+intended reading of `val32/val64/val80`.  No theorem of Props/C02.lean that quantifies over `FpuSpec` depends on it; the
+three absolute theorems `C02_ieee_*` are about exactly these layouts (and the encoders below). -/
 namespace Ieee
 
 /-- binary interchange format with `w` exponent bits and `t` trailing significand bits -/
@@ -315,6 +357,33 @@ def decode80 (b : BitVec 80) : Val :=
   else if ex = 0 then .fin neg m (1 - bias - 63)
   else if m < 2 ^ 63 then .nan
   else .fin neg m (ex - bias - 63)
+
+/-! ### IEEE-754 / x87 *encoding* of integers: the intended reading of `ofInt32/ofInt64/ofInt80`
+
+`drv_c02 contract` compares the bits the CPU produced (`cvtsi2ss/sd`, `fild`, the doubling and `fadd` sequences) with these,
+so the contracts that are stated as equalities of data (`addss_double`, `fadd_two64`, `ofInt*_congr`) are validated bit for
+bit.  Lemmas/FpIeeeLemmas.lean proves, without any `FpuSpec`, that decoding inverts them. -/
+
+/-- binary interchange format (w exponent bits, t trailing significand bits): the datum of the natural number `n`, which must
+    have at most t + 1 significant bits and be below 2^(2^(w−1)) (true of every rounded integer of magnitude ≤ 2^64) -/
+def encodeNat (w t : Nat) (neg : Bool) (n : Nat) : Nat :=
+  let sign := if neg then 2 ^ (w + t) else 0
+  if n = 0 then sign else
+  let l := bitLen n
+  let sig := if l ≤ t + 1 then n * 2 ^ (t + 1 - l) else n / 2 ^ (l - (t + 1))      -- 2^t ≤ sig < 2^(t+1)
+  sign + (l - 1 + (2 ^ (w - 1) - 1)) * 2 ^ t + (sig - 2 ^ t)
+
+/-- x87 double extended: 15 exponent bits, 64 significand bits with the integer bit explicit -/
+def encodeNat80 (neg : Bool) (n : Nat) : Nat :=
+  let sign := if neg then 2 ^ 79 else 0
+  if n = 0 then sign else
+  let l := bitLen n
+  let sig := if l ≤ 64 then n * 2 ^ (64 - l) else n / 2 ^ (l - 64)
+  sign + (l - 1 + 16383) * 2 ^ 64 + sig
+
+def ofInt32 (v : Int) : BitVec 32 := BitVec.ofNat 32 (encodeNat 8 23 (decide (v < 0)) (roundNat 24 v.natAbs))
+def ofInt64 (v : Int) : BitVec 64 := BitVec.ofNat 64 (encodeNat 11 52 (decide (v < 0)) (roundNat 53 v.natAbs))
+def ofInt80 (v : Int) : BitVec 80 := BitVec.ofNat 80 (encodeNat80 (decide (v < 0)) (roundNat 64 v.natAbs))
 
 end Ieee
 
